@@ -138,7 +138,106 @@ pub fn generate(run_seed: u64, mode: Mode, corpus: Option<&Corpus>) -> Scenario 
   if mode == Mode::C16 && w.chance(3, 5) {
     return c16::generate_layout(run_seed, w, f);
   }
+  if mode != Mode::C16 && w.chance(1, 250) {
+    return generate_many_modules(run_seed, mode, w, f);
+  }
   generate_synthetic(run_seed, mode, w, f)
+}
+
+/// >100 tiny modules: crosses NUM_MODULE_MARKED_PER_SLICE (100) with the shipped constant, so the
+/// mark phase of one GC round spans several edits and the sweep gate stays closed in between.
+fn generate_many_modules(run_seed: u64, mode: Mode, mut w: Rng, f: Rng) -> Scenario {
+  let mut faults = FaultPlan::new(f);
+  let mut knobs = knobs(run_seed, false, &mut w);
+  knobs.with_std = false;
+  knobs.gc_slice = *w.pick(&[0usize, 0, 100, 3]);
+  let n = w.range(101, 140);
+  let long = |i: usize| format!("aRatherLongFunctionNameNumber{i}");
+  let text = |i: usize, v: usize, n: usize| -> String {
+    let dep = (i + 1) % n;
+    format!("import {{ C{dep} }} from many.M{dep};\n\nclass C{i} {{\n  function {}(x: int): int = if x < {v} {{ x }} else {{ C{dep}.{}(x - 1) }}\n}}\n", long(i), long(dep))
+  };
+  let names: Vec<ModName> = (0..n).map(|i| vec!["many".to_string(), format!("M{i}")]).collect();
+  let mut initial = Vec::new();
+  let mut belief: BTreeMap<ModName, String> = BTreeMap::new();
+  for i in 0..n {
+    if i % 17 != 3 {
+      let t = text(i, 0, n);
+      initial.push((names[i].clone(), t.clone()));
+      belief.insert(names[i].clone(), t);
+    }
+  }
+  let mut ops = Vec::new();
+  for step in 0..w.range(3, 8) {
+    match w.below(8) {
+      0 => {
+        let i = w.below(n);
+        belief.remove(&names[i]);
+        ops.push(Op::Remove(vec![names[i].clone()]));
+      }
+      1 => {
+        let i = w.below(n);
+        if let Some(t) = belief.remove(&names[i]) {
+          let dst = vec!["many".to_string(), format!("Renamed{step}")];
+          belief.insert(dst.clone(), t);
+          ops.push(Op::Rename(vec![(names[i].clone(), dst)]));
+        }
+      }
+      _ => {
+        let i = w.below(n);
+        let mut t = text(i, step + 1, n);
+        if w.chance(1, 3) {
+          t = t.replace(&long((i + 1) % n), "someFunctionThatDoesNotExistAnywhere");
+        }
+        let t = faults.text_faults(t);
+        belief.insert(names[i].clone(), t.clone());
+        ops.push(Op::Update(vec![(names[i].clone(), t)]));
+      }
+    }
+    if mode == Mode::C11 {
+      ops.push(gen_query(&mut w, &belief, &[], &names));
+    }
+  }
+  faults.fired.inc("more_than_100_modules");
+  Scenario { kind: "many_modules".into(), knobs, initial, ops, faults: faults.fired }
+}
+
+fn import_cycle_of_length_3_or_more(world: &BTreeMap<ModName, String>) -> bool {
+  // edges from `import { .. } from a.b` lines
+  let mut edges: BTreeMap<&ModName, Vec<ModName>> = BTreeMap::new();
+  for (m, t) in world {
+    for line in t.lines() {
+      let l = line.trim();
+      if let (true, Some(f)) = (l.starts_with("import"), l.find(" from ")) {
+        let target: ModName = l[f + 6..].trim().trim_end_matches(';').split('.').map(|s| s.trim().to_string()).collect();
+        if world.contains_key(&target) && &target != m {
+          edges.entry(m).or_default().push(target);
+        }
+      }
+    }
+  }
+  // a cycle of length >= 3: DFS of depth-limited simple paths returning to the start
+  for start in world.keys() {
+    let mut stack: Vec<(ModName, Vec<ModName>)> = vec![(start.clone(), vec![start.clone()])];
+    let mut budget = 2000;
+    while let Some((cur, path)) = stack.pop() {
+      budget -= 1;
+      if budget == 0 {
+        break;
+      }
+      for nxt in edges.get(&cur).cloned().unwrap_or_default() {
+        if &nxt == start && path.len() >= 3 {
+          return true;
+        }
+        if !path.contains(&nxt) && path.len() < 6 {
+          let mut p = path.clone();
+          p.push(nxt.clone());
+          stack.push((nxt, p));
+        }
+      }
+    }
+  }
+  false
 }
 
 fn generate_synthetic(run_seed: u64, mode: Mode, mut w: Rng, f: Rng) -> Scenario {
@@ -360,6 +459,9 @@ fn generate_synthetic(run_seed: u64, mode: Mode, mut w: Rng, f: Rng) -> Scenario
         }
       }
     }
+  }
+  if import_cycle_of_length_3_or_more(&belief) {
+    faults.fired.inc("import_cycle_of_length_3_or_more");
   }
   Scenario { kind: "synthetic".into(), knobs, initial, ops, faults: faults.fired }
 }
